@@ -131,3 +131,20 @@ Definition use_data_space (sp : tl_space) (n_data metric_size : nat) : bool :=
   match sp with SpSignal => false | SpData => true | SpAuto => Nat.leb n_data metric_size end.
 Definition trace_inv_exact (data_space : bool) (evs : list Q) : Q :=
   qsum (map (fun ev => / (ev + (if data_space then 1 else 0))) evs).
+
+(* analytic prior term, both APIs:  trace_inv_const = float(metric_size - n_relevant_dofs)
+   (the metric eigenvalues that are exactly 1 contribute 1 each to Tr(Lambda^-1));
+   trace_inv_total = trace_inv_exact + [SLQ remainder] + trace_inv_const *)
+Definition trace_inv_const (metric_size n_rel : nat) : Q := inject_Z (Z.of_nat (metric_size - n_rel)).
+
+(* _eigsh, resumed eigensystem (both APIs):
+     order = np.argsort(-eigenvalues); eigenvalues = eigenvalues[order]; eigenvectors = eigenvectors[:, order]
+     if eigenvalues.size > n_eigenvalues: eigenvalues = eigenvalues[:n_eigenvalues] ...
+   sort descending FIRST, then keep the n largest.  (On the logarithms: log is increasing.) *)
+Fixpoint insert_desc (x : Q) (l : list Q) : list Q :=
+  match l with
+  | [] => [x]
+  | y :: r => if Qle_bool y x then x :: y :: r else y :: insert_desc x r
+  end.
+Fixpoint sort_desc (l : list Q) : list Q := match l with [] => [] | x :: r => insert_desc x (sort_desc r) end.
+Definition resume_select (n : nat) (evs : list Q) : list Q := firstn n (sort_desc evs).
